@@ -60,17 +60,19 @@ theorem rSel_congr (env : Env) (g2 : Graph) (h : SameAnswers env.graph g2) (node
     rSel env node ty d res s = rSel { env with graph := g2 } node ty d res s
   | .field al name args dirs sels => by
     have hf : fetch env.graph node name = fetch g2 node name := h.1 node name
-    have hc : ∀ t v dd,
+    have hc : ∀ (dt : TRef) t v dd,
         complete env.schema env.graph
           (fun n t d' => if sels.isEmpty = true then ((.obj [] : J), ({ errs := [⟨[], .noSelection⟩] } : Acc))
-            else (J.obj (rSels env n t d' [] sels).fst, (rSels env n t d' [] sels).snd)) t v dd =
+            else (J.obj (rSels env n (staticTy env dt t) d' [] sels).fst, (rSels env n (staticTy env dt t) d' [] sels).snd)) t v dd =
         complete env.schema g2
           (fun n t d' => if sels.isEmpty = true then ((.obj [] : J), ({ errs := [⟨[], .noSelection⟩] } : Acc))
-            else (J.obj (rSels { env with graph := g2 } n t d' [] sels).fst, (rSels { env with graph := g2 } n t d' [] sels).snd)) t v dd := by
-      intro t v dd
+            else (J.obj (rSels { env with graph := g2 } n (staticTy { env with graph := g2 } dt t) d' [] sels).fst,
+                  (rSels { env with graph := g2 } n (staticTy { env with graph := g2 } dt t) d' [] sels).snd)) t v dd := by
+      intro dt t v dd
       apply complete_congr env.schema h
       intro n t d'
-      simp only [rSels_congr env g2 h n t d' [] sels]
+      have hst : staticTy { env with graph := g2 } dt t = staticTy env dt t := rfl
+      simp only [hst, rSels_congr env g2 h n (staticTy env dt t) d' [] sels]
     have htn : typeNameOf env node ty = typeNameOf { env with graph := g2 } node ty := by
       simp only [typeNameOf, objectTypeOf_congr env g2 h node ty]
     simp only [rSel, hf, hc, htn]
